@@ -213,6 +213,11 @@ def _grid(tier):
 
 
 MUTANTS = [
+    dict(name="original F-C14/F-C14e: split keeps the whole subrun spans when continuity is not promised", file="strax/chunk.py",
+         old="        subruns_first_chunk, subruns_second_chunk = _split_runs_in_chunk(self.subruns, t)\n",
+         new="        if self.promised_continuity:\n            subruns_first_chunk, subruns_second_chunk = _split_runs_in_chunk(self.subruns, t)\n        else:\n            subruns_first_chunk = subruns_second_chunk = self.subruns\n"),
+    dict(name="a run starting exactly at the split time is dropped", file="strax/chunk.py",
+         old='        if t <= run_start_end["start"]:', new='        if t < run_start_end["start"]:'),
     dict(name="superrun key ignores the subrun spec", file="strax/storage/common.py",
          old='            suffix = "_" + strax.deterministic_hash((self.subruns, self.combining))', new='            suffix = "_x"'),
     dict(name="subruns not recorded in chunk metadata", file="strax/storage/common.py",
